@@ -216,6 +216,15 @@ def run(ctx, rep):
         rep.check("C20.4" + sfx, "C20.4/ambient-on-query-paths", not amb4 and len(roots) >= 10, loc="src/",
                   found=[("%s: %s" % (q_.split("::")[-1], w_)) for q_, n_, w_ in amb4[:4]] or "%d query entry points, %d functions reachable, no ambient source" % (len(roots), len(seen4)),
                   expected="no time/env/thread/pid/RNG/address dependence on the query paths")
+        # ---- C20.5 a hash container's iteration order is seeded per thread (`RandomState` draws its keys from a thread-local): an
+        # answer, or a cache file, that depends on it differs with the thread that built it - on the query paths, the mapper's
+        # constructors and the cache writer alike (membership tests and keyed lookups are fine)
+        roots5 = list(roots) + [q_ for c_ in A4.mapper_roots(fx).values() for q_ in c_] + A4.method(fx, A4.CACHE, "write") + A4.method(fx, A4.CACHE, "parse")
+        seen5 = {q_ for q_ in fx.reachable(roots5) if fx.bodies[q_]["krate"] == "proguard"} if roots5 else set()
+        obs5 = E4.hash_order_observers(fx, seen5)
+        rep.check("C20.5" + sfx, "C20.5/hash-order", not obs5 and len(seen5) >= 40, loc="src/",
+                  found=[("%s: %s" % (q_.split("::")[-1], w_)) for q_, n_, w_ in obs5[:4]] or "%d functions reachable from constructors, writer and queries; hash containers used for membership and keyed lookup only" % len(seen5),
+                  expected="no iteration over a hash container where the order can reach a result")
         # ---- C20.3 inventory -------------------------------------------------------
         items = fx.items["proguard"]
         for s in items["statics"]:
